@@ -333,3 +333,13 @@ func (w *World) Resolve(abs string) string {
 	}
 	return p
 }
+
+// Mtime returns the logical mtime of a path (set-up helper).
+func (w *World) Mtime(abs string) int64 {
+	w.mu.Lock()
+	defer w.mu.Unlock()
+	if n, _, err := w.walk(abs, true); err == nil && n != nil {
+		return n.mtime
+	}
+	return 0
+}
